@@ -421,7 +421,50 @@ def r4_regeneration_source(repo=None):
     else:
         r.violation(m.rel, q, "rf_file_glob = %r" % gl, "regeneration can read an in-progress file (witness %r)" % w2,
                     line=fn.lineno)
-    r.guard(2)
+    # 'can be regenerated from any data file': giving up is allowed only after every sub-directory was looked at.  The glob for
+    # data files takes a directory; that directory must range over the whole list of sub-directories (a loop variable), not be one
+    # element picked by a subscript - the newest sub-directory of a live channel, or one left by a killed writer, holds no
+    # finalized file.
+    parents = {}
+    for n in ast.walk(fn):
+        for ch in ast.iter_child_nodes(n):
+            parents[ch] = n
+    sub_lists = {n.targets[0].id for n in ast.walk(fn) if isinstance(n, ast.Assign) and isinstance(n.targets[0], ast.Name)
+                 and isinstance(n.value, ast.Call) and pyfront.call_name(n.value) == "glob.glob" and "GLOB_SUBDIR" in ast.unparse(n.value)}
+    data_globs = [c for c in ast.walk(fn) if isinstance(c, ast.Call) and pyfront.call_name(c) == "glob.glob" and "rf_file_glob" in ast.unparse(c)]
+    if not sub_lists or not data_globs:
+        raise AnalysisError("%s: list of sub-directories / glob for data files not found" % q)
+    for c in data_globs:
+        dirs = [x.id for x in ast.walk(c) if isinstance(x, ast.Name) and x.id not in ("rf_file_glob", "glob", "os", "channel_dir")]
+        site = "%s:%s %s `%s`" % (m.rel, c.lineno, q, norm(ast.unparse(c))[:70])
+        if "GLOB_SUBDIR" in ast.unparse(c):
+            r.ok(site, "globs the data files of all sub-directories at once")
+            continue
+        verdict = None
+        for d in dirs:
+            loop = parents.get(c)
+            while loop is not None and not (isinstance(loop, ast.For) and any(isinstance(x, ast.Name) and x.id == d for x in ast.walk(loop.target))):
+                loop = parents.get(loop)
+            if loop is not None and any(isinstance(x, ast.Name) and x.id in sub_lists for x in ast.walk(loop.iter)):
+                verdict = ("ok", "looks in every sub-directory (loop over `%s`) before giving up" % norm(ast.unparse(loop.iter))[:50])
+                break
+            picks = [a for a in ast.walk(fn) if isinstance(a, ast.Assign) and isinstance(a.targets[0], ast.Name) and a.targets[0].id == d
+                     and isinstance(a.value, ast.Subscript) and isinstance(a.value.value, ast.Name) and a.value.value.id in sub_lists
+                     and not isinstance(a.value.slice, ast.Slice)]
+            if picks:
+                verdict = ("bad", picks[0])
+                break
+        if verdict is None:
+            raise AnalysisError("%s: directory argument of `%s` not recognised" % (q, norm(ast.unparse(c))[:60]))
+        if verdict[0] == "ok":
+            r.ok(site, verdict[1])
+        else:
+            a = verdict[1]
+            r.violation(m.rel, q, norm(ast.unparse(a))[:80], "only one sub-directory, picked by position in the directory listing, is searched "
+                        "for a data file and regeneration gives up if it holds none: the newest sub-directory of a live channel (only the "
+                        "`tmp.` file being written) or one left by a killed or failed writer makes regeneration fail although finalized, "
+                        "self-describing files sit in the neighbouring sub-directories", line=a.lineno)
+    r.guard(3)
     return r
 
 
@@ -630,8 +673,61 @@ def r7_rows_start_inside_the_file(repo=None):
     return r
 
 
+def r8_session_timestamp_exact(repo=None):
+    """'carry the session's ... start timestamp': the second stored as init_utc_timestamp in every file must be the second of the
+    first sample, floor(start * d / n).  Computed through the rounded long double rate it is one second early for whole-second
+    starts at rates whose rounding is upward (1e8/7, 1000/3, 1e6/3 Hz ...).  Every store of the field is therefore either a
+    constant, or an expression without a floating-typed node / read of the `sample_rate` field, or made by passing the field's
+    address to one of the integer-only conversion functions (C04.R1's naming set)."""
+    from . import c04
+    r = Rule("C06.R8", "the session start second stored in every file is computed with integer arithmetic")
+    tu = cfront.lib(repo)
+    FIELD = "init_utc_timestamp"
+    exact = set(c04.naming_set(tu))
+    n = 0
+    for fname, fn in tu.functions.items():
+        for path, node, rhs, kind in clib.stores(fn):
+            if not path or not (path.endswith("->" + FIELD) or path.endswith("." + FIELD)):
+                continue
+            n += 1
+            site = "%s:%s %s `%s`" % (LIB, node.line, fname, norm(node.nsrc)[:70])
+            bad = None
+            for x in (rhs.walk() if rhs is not None else []):
+                if x.kind == "FloatingLiteral" or (x.kind != "DeclRefExpr" and x.is_float()) or (x.kind == "DeclRefExpr" and x.is_float()):
+                    bad = "expression of floating type `%s`" % x.type
+                    break
+                if x.kind == "MemberExpr" and x.name == "sample_rate":
+                    bad = "read of the long double `sample_rate` field"
+                    break
+            if kind != "=":
+                bad = bad or "compound update"
+            if bad:
+                r.violation(LIB, fname, norm(node.nsrc)[:80], "the session's start second is computed in floating point (%s): for a "
+                            "first sample exactly on a whole second and a rate whose long double rounding is upward the quotient lands "
+                            "just below the integer and the stored second is one too early - in every file of the session, and "
+                            "different from the second in the first file's name" % bad, line=node.line)
+            else:
+                r.ok(site, "integer-only")
+        for c in fn.calls():
+            for a in c.args:
+                t = a.strip(casts=True)
+                if t.kind == "UnaryOperator" and t.opcode == "&" and (t.children[0].path() or "").endswith("->" + FIELD) \
+                        and c.callee in tu.functions:      # an external call that takes the address reads it (H5Awrite: const void *)
+                    n += 1
+                    site = "%s:%s %s `%s`" % (LIB, c.line, fname, norm(c.nsrc)[:70])
+                    if c.callee in exact:
+                        r.ok(site, "set by %s, an integer-only conversion (C04.R1)" % c.callee)
+                    else:
+                        r.violation(LIB, fname, norm(c.nsrc)[:80], "the session's start second is set by `%s`, which is not one of the "
+                                    "integer-only conversion functions" % c.callee, line=c.line)
+    if n < 1:
+        raise AnalysisError("no store of %s found" % FIELD)
+    r.guard(1)
+    return r
+
+
 def rules(repo=None):
-    return [lambda: r1_attribute_tables(repo), lambda: r2_write_once(repo), lambda: r3_metadata_in_every_file(repo),
+    return [lambda: r8_session_timestamp_exact(repo), lambda: r1_attribute_tables(repo), lambda: r2_write_once(repo), lambda: r3_metadata_in_every_file(repo),
             lambda: r4_regeneration_source(repo), lambda: r5_index_passes_agree(repo), lambda: r6_capacity_from_window(repo),
             lambda: r7_rows_start_inside_the_file(repo)]
 
